@@ -89,13 +89,68 @@ def plan(tier, seed):
     nchunk = 16 if tier == "quick" else 64
     for ch in range(nchunk):
         jobs.append(("prog", n_sub, ch, nchunk, seed, 10 ** 6))
+    for k in range(4):
+        jobs.append(("big", k, seed, 50000))
     jobs.sort(key=lambda j: -j[-1])
     return jobs
 
 
 def run_job(job):
     env.quiet()
-    return {"fn": job_fn, "prog": job_prog}[job[0]](job)
+    return {"fn": job_fn, "prog": job_prog, "big": job_big}[job[0]](job)
+
+
+def job_big(job):
+    """many haplotypes (> 127 alleles) and a high ploidy (>= 12): the called genotype must still be the posterior maximiser on both paths"""
+    from mchap.calling.exact import posterior_mode, genotype_likelihoods, genotype_posteriors
+
+    _, k, seed, _ = job
+    r = Result()
+    payload = {"kind": "job", "job": job}
+    cfgs = [(140, 2, (131, 137)), (150, 2, (5, 149)), (3, 12, (0, 1)), (4, 13, (1, 3))]
+    H, P, support = cfgs[k]
+    nb = 8 if H > 16 else 2
+    rows = list(itertools.product(range(2), repeat=nb))[:H]
+    haps = np.array(rows)
+    e = [0.02, 0.05, 0.01][seed % 3]
+    reads, counts = [], []
+    for a in support:
+        reads.append([[1 - e if x == b else e for b in range(2)] + [0.0] for x in rows[a]])
+        counts.append(3)
+    reads[0][0] = [float("nan")] * 3
+    R = np.array(reads, float)
+    C = np.array(counts)
+    rref = [[None if all(v != v for v in s) else s for s in rd] for rd in reads]
+    fr = [1.0 + 0.5 * (i % 3) for i in range(H)]
+    fr = [x / sum(fr) for x in fr]
+    gens, post, llks = refpost([tuple(x) for x in rows], P, fr, 0.1, rref, counts)
+    pmax = max(post.values())
+    best = [g for g, v in post.items() if v >= pmax - 1e-12]
+    farr = np.array(fr)
+    tag = "H=%d|P=%d" % (H, P)
+    res = posterior_mode(R, P, haps, C, 0.1, farr, True, True, True)
+    mg = tuple(int(x) for x in res[0])
+    r.evaluations += 1
+    r.nontrivial += 1
+    if mg not in best:
+        r.violation("big-stream-mode|" + tag, "streaming path calls %r (posterior %.6g); the maximiser is %r (%.6g)" % (mg, post.get(mg, float("nan")), best[0], pmax), payload)
+    else:
+        sup = sum(v for g, v in post.items() if set(g) == set(mg))
+        if abs(res[2] - post[mg]) > 1e-9 or abs(res[3] - sup) > 1e-9 or not (res[2] <= res[3] + 1e-12):
+            r.violation("big-stream-stats|" + tag, "GPM/SPM %.9g/%.9g, reference %.9g/%.9g" % (res[2], res[3], post[mg], sup), payload)
+    order = sorted(gens, key=lambda g: tuple(reversed(g)))
+    l32 = genotype_likelihoods(R, P, haps, C)
+    gp = genotype_posteriors(l32, P, H, 0.1, farr)
+    from mchap.jitutils import index_as_genotype_alleles
+
+    idx = int(np.argmax(gp))
+    al = tuple(int(x) for x in index_as_genotype_alleles(idx, P))
+    r.evaluations += 1
+    if al != order[idx] or post[order[idx]] < pmax * (1 - 1e-4):
+        r.violation("big-array-mode|" + tag, "full-array path: arg-max index %d decodes to %r, VCF order has %r (posterior %.6g, maximum %.6g)" % (idx, al, order[idx], post[order[idx]], pmax), payload)
+    r.outcome((tag, mg))
+    r.sample({"large_instance": tag, "genotypes": len(gens), "called": mg})
+    return r
 
 
 def refpost(haps, P, freqs, F, reads_ref, counts):
